@@ -2149,7 +2149,11 @@ class Evaluator:
             if items is not None:
                 cs = [self.as_cond(x) for x in items]
                 return [(state, self.mk_bool("or" if name == "any" else "and", cs) if cs else (FALSE if name == "any" else TRUE))]
-            return [(state, (name, args[0]))]
+            a0 = args[0]
+            if a0[0] == "comp" and a0[1] in ("list", "gen", "set") and not (isinstance(a0[2], tuple) and a0[2] and a0[2][0] == "%payload"):
+                # any()/all() judge the elements by truthiness
+                a0 = ("comp", a0[1], self.as_cond(a0[2]), a0[3])
+            return [(state, (name, a0))]
         if name in ("map", "filter") and len(args) == 2 and not kwargs:
             fn, xs = args
             items = self._literal_items(xs)
